@@ -1,14 +1,15 @@
 /*UNIT
-{"props": ["C17", "C18"], "src": ["lib/hashtable.c"], "mode": "plain", "kind": "bounded",
- "bound": "8 buckets; key hashing to bucket 5; probed bucket holds <= 3 nodes (distinct keys of length 1..2, arbitrary bytes), <= 2 iterators parked per node, notifiers: none, or 2 global + 1 per key; other buckets arbitrary (never accessed)",
- "unwind": 6, "unwindset": ["harness.0:9"], "spec": ["hashtable.spec"], "tags": ["split"], "cbmc_flags": ["--no-malloc-may-fail"],
+{"props": ["C17", "C18"], "src": ["lib/hashtable.c"], "spec": ["hashtable.spec"], "tags": ["split"], "mode": "plain", "kind": "bounded",
+ "bound": "8 buckets; key hashing to bucket 5; that bucket holds <= 3 nodes (distinct keys of length 1..2, arbitrary bytes; every equality pattern between the probed key and the node keys enumerated), <= 2 iterators parked per node, notifiers: none, or 2 global + 1 per key; other buckets arbitrary (never accessed)",
+ "unwind": 12, "cbmc_flags": ["--no-malloc-may-fail"],
  "functions": ["hashtable_put", "hashtable_notify", "qb_hash_string", "hash_fnv"],
  "restrict_fp": ["hashtable_notify.function_pointer_call.1/verif_notify_cb", "hashtable_notify.function_pointer_call.2/verif_notify_cb",
                  "hashtable_notify.function_pointer_call.3/verif_notify_cb"],
- "stubs": ["map notifier callback (records event, key, old and new value per notifier)", "malloc/calloc (may fail)"],
+ "stubs": ["map notifier callback (records event, key, old and new value per notifier)", "calloc/malloc (scripted: succeed or fail per enumerated case)",
+           "strcmp (answers from the declared key order of the enumerated case, asserted to agree with the key contents)"],
  "expect_classes": ["assertion"], "timeout": 300,
- "variants": [{"vname": "live", "defines": ["-DVERIF_STATE_EXTRA(p,i)=((p)==1)"]},
-              {"vname": "removed", "defines": ["-DV_REMOVED", "-DHT_SHAPE_FROM=2"]}]}
+ "variants": [{"vname": "live", "defines": ["-DVERIF_STATE_EXTRA(p,i)=((p)==1)", "-DM_PRESENT=1"]},
+              {"vname": "removed", "defines": ["-DV_REMOVED", "-DM_PRESENT=0"]}]}
 */
 /* hashtable_put(k, v) on every well-formed bounded state, every key and value:
  *  k present : the value is replaced (get would now return v), the count is unchanged, the replacement is
@@ -22,32 +23,44 @@
  *           INSERTED announced) -- defect #15: the zombie node is "replaced" instead */
 #include "ht_common.h"
 
-static void verif_case(unsigned nodes, unsigned gnot, unsigned nnot)
+static void verif_case(unsigned nodes, unsigned gnot, unsigned nnot, int match, int m_iters)
 {
-	verif_alloc_never_fails = 1;
+	verif_alloc_fail = 0;
+	verif_keys_reset();
 	char *k = verif_key_new();
-	void *v = verif_value_new();
+	verif_key_register(k, HT_PROBE_RANK);
 	uint32_t b = ht_probe_bucket(k);
-	struct hash_table *t = ht_build(b, nodes, gnot, nnot);
-	int gi = ht_ghost_find(k);
-	size_t count0 = t->count;
 #ifdef V_REMOVED
-	ASSUME(gi >= 0 && HG[gi].present == 0);
+	if (match < 0) {
+		return;
+	}
+	m_iters = m_iters + 1;   /* a removed key's node only exists while an iterator is parked on it */
 #endif
+	void *v = verif_value_new();
+	VERIF_ND(uint8_t, nd_alloc_fails);
+	struct hash_table *t = ht_build(b, nodes, gnot, nnot, match, M_PRESENT, m_iters);
+	int gi = match;
+	size_t count0 = t->count;
+	/* both allocation outcomes, as two concrete sub-cases */
+	if (nd_alloc_fails) {
+		verif_alloc_fail = 1;
+	} else {
+		verif_alloc_fail = 0;
+	}
 
 	hashtable_put(&t->map, k, v);
 
 	if (gi >= 0 && HG[gi].present) {
 		void *oldv = HG[gi].value;
 		COVER(HG_n == 3 && gi == 1);
-		COVER(HG[gi].iters == 2);
+		COVER(HG[gi].iters == 1);
 		COVER(HG[gi].notidx >= 0 && HG_gnot == 2);
 		HG[gi].value = v;
 		ht_check_notified(QB_MAP_NOTIFY_REPLACED, gi, k, oldv, v);
 		POST(verif_alloc_calls == 0, "replacing a value allocates nothing");
 		ht_check_state(t);
 	} else if (gi < 0) {
-		if (verif_alloc_calls == 0) {
+		if (verif_alloc_fail) {
 			COVER(1);
 			POST(verif_not_total == 0, "a put that fails for lack of memory announces nothing");
 		} else {
@@ -72,7 +85,7 @@ static void verif_case(unsigned nodes, unsigned gnot, unsigned nnot)
 	} else {
 		/* k is not in the dictionary (removed; its node only survives under an iterator): put inserts it */
 		COVER(HG_n == 3);
-		POST(t->count == count0 + 1 || verif_alloc_calls == 0, "put of an absent key makes the count grow by one");
+		POST(t->count == count0 + 1 || verif_alloc_fail, "put of an absent key makes the count grow by one");
 		if (t->count == count0 + 1) {
 			ht_check_notified(QB_MAP_NOTIFY_INSERTED, -1, k, NULL, v);
 		}
@@ -81,11 +94,6 @@ static void verif_case(unsigned nodes, unsigned gnot, unsigned nnot)
 
 void harness(void)
 {
-	VERIF_ND(uint8_t, nd_shape);
-	unsigned s;
-	for (s = HT_SHAPE_FROM; s < HT_SHAPE_TO; s++) {
-		if (nd_shape == s) {
-			verif_case(HT_SHAPE_NODES(s), HT_SHAPE_GNOT(s), HT_SHAPE_NNOT(s));
-		}
-	}
+	VERIF_ND(uint8_t, nd_case);
+	HT_ENUM_CASES(nd_case, verif_case);
 }
